@@ -301,6 +301,33 @@ def msg_from_bytes(src):
     return out
 
 
+def check_attribute_types(src):
+    """Message::check_attribute_types: the two iterator chains (unsupported comprehension-required types in
+    message order; a required type that is absent) and the order of the two verdicts"""
+    txt = src.get(MSG)
+    imp = impl_body(txt, r"impl\s*<'a>\s*Message<'a>\s*\{")
+    if imp is None:
+        raise XlateError("impl Message not found")
+    body = fn_body(imp, r"pub\s+fn\s+check_attribute_types\s*<'b>\s*\(\s*msg\s*:\s*&Message\s*,\s*supported\s*:\s*&\[AttributeType\]\s*,\s*required_in_msg\s*:\s*&\[AttributeType\]\s*,?\s*\)\s*->\s*Option<MessageBuilder<'b>>\s*\{")
+    if body is None:
+        raise XlateError("check_attribute_types not found")
+    em = Emitter(
+        exprs=[
+            ("msg.iter_attributes()", "m.iter"),
+            ("$it.map(|$x| $f)", "($it.map (fun $x => $f))"),
+            ("$it.filter(|$x| $p).collect()", "($it.filter (fun $x => $p))"),
+            ("$it.iter().any(|$x| $p)", "($it.any (fun $x => $p))"),
+            ("$it.any(|$x| $p)", "($it.any (fun $x => $p))"),
+            ("$a.get_type()", "$a.ty"),
+            ("$t.comprehension_required()", "(comprehensionRequired $t)"),
+            ("$v.is_empty()", "$v.isEmpty"),
+            ("Some(Message::unknown_attributes(msg, &$u))", "(some (unknownAttributesResp m $u))"),
+            ("Some(Message::bad_request(msg))", "(some (badRequestResp m))"),
+        ],
+        state=None, ret="{v}", locals_=["supported", "required_in_msg"])
+    return em.blk(parse_body(body))
+
+
 def req_mut(src, name):
     txt = src.get(AGENT)
     imp = impl_body(txt, r"impl\s*<'a>\s*StunRequestMut<'a>\s*\{")
@@ -411,6 +438,7 @@ def items(src):
         return f
     yield ("FnMsg", "msgWalk", "(orig_data : Bytes) (ending_attributes : List Nat) (__f : Nat) (data : Bytes) (data_offset : Nat) (seen_ending_attributes : List Nat) (seen_ending_len : Nat) : Except PErr Msg", mfb_part("loop"), None)
     yield ("FnMsg", "msgFromBytes", "(data : Bytes) : Except PErr Msg", mfb_part("entry"), None)
+    yield ("FnPolice", "checkAttributeTypes", "(m : Msg) (supported required_in_msg : List Nat) : Option Builder", lambda: check_attribute_types(src), None)
     yield ("FnTcp", "tcpTake", "(buf : Bytes) (offset : Nat) : Bytes × Bytes", lambda: tcp_fn(src, "take"), None)
     yield ("FnTcp", "tcpPull", "(buf : Bytes) : Option Bytes × Bytes", lambda: tcp_fn(src, "pull_data"), None)
     yield ("FnTcp", "tcpPush", "(buf data : Bytes) : Bytes", lambda: tcp_fn(src, "push_data"), None)
@@ -419,6 +447,7 @@ def items(src):
 HEADERS = {
     "FnAgent": ["import StunVerif.Agent.Agent", "namespace StunVerif.Gen", "open StunVerif StunVerif.Agent", ""],
     "FnMsg": ["import StunVerif.Msg.IterState", "import StunVerif.Gen.MsgType", "namespace StunVerif.Gen", "open StunVerif", ""],
+    "FnPolice": ["import StunVerif.Msg.Police", "import StunVerif.Gen.Attr", "namespace StunVerif.Gen", "open StunVerif", ""],
     "FnTcp": ["import StunVerif.Bytes", "namespace StunVerif.Gen", "open StunVerif", ""],
 }
 FALLBACK_FILE = os.path.join(os.path.dirname(os.path.abspath(__file__)), "fn_fallback.json")
